@@ -22,5 +22,8 @@ for hid in ids:
         subprocess.run("git -C /repo checkout -- .", shell=True, check=True)
     out[hid] = {"alarms": alarms}
     print(hid, "quiet" if not alarms else alarms, flush=True)
-json.dump({"when": time.strftime("%Y-%m-%d %H:%M"), "results": out}, open("/verif/harmless/REGRESSION.json", "w"), indent=1)
+path = "/verif/harmless/REGRESSION.json"
+allres = json.load(open(path))["results"] if os.path.exists(path) and sys.argv[1:] else {}
+allres.update(out)
+json.dump({"when": time.strftime("%Y-%m-%d %H:%M"), "results": allres}, open(path, "w"), indent=1)
 print("ALARMS:", {k: list(v.get("alarms", {})) for k, v in out.items() if v.get("alarms") or v.get("error")})
